@@ -42,7 +42,8 @@ def plans_for(prog, rnd, quick):
                     for nresp in ((0, 1, 2) if me["ss"] else (1,)):
                         if quick and rnd.random() < .35 and mode != "default":
                             continue
-                        calls.append(dict(base, mode=mode, nreq=nreq, nresp=nresp, status=rnd.choice(STATUSES), async_source=rnd.random() < .4))
+                        calls.append(dict(base, mode=mode, nreq=nreq, nresp=nresp, status=rnd.choice(STATUSES), async_source=rnd.random() < .4,
+                                          default_last=rnd.random() < .3))
     plans = []
     stub_combos = list(itertools.product([False, True], repeat=3))
     call_combos = list(itertools.product([False, True], repeat=3))
